@@ -99,7 +99,7 @@ func TestTargetBitrateBounded(t *testing.T) {
 		closed := false
 		defer func() {
 			if !closed {
-				_ = bwe.Close()
+				kit.BoundedClose(bwe.Close)
 			}
 		}()
 		where := fmt.Sprintf("min %d initial %d max %d pacer %s", minR, initR, maxR, pacerKind)
@@ -157,7 +157,10 @@ func TestTargetBitrateBounded(t *testing.T) {
 				interesting = true
 				classes["published-change"] = true
 			}
-			for k, v := range bwe.GetStats() {
+			stats := bwe.GetStats()
+			classes[fmt.Sprintf("delay-state-%v", stats["state"])] = true
+			classes[fmt.Sprintf("delay-usage-%v", stats["usage"])] = true
+			for k, v := range stats {
 				if f, ok := v.(float64); ok && (math.IsNaN(f) || math.IsInf(f, 0)) {
 					t.Fatalf("%s: after %s GetStats()[%q] = %v", where, after, k, f)
 				}
@@ -168,11 +171,24 @@ func TestTargetBitrateBounded(t *testing.T) {
 		}
 		rounds := rapid.IntRange(1, 6).Draw(t, "rounds")
 		for r := 0; r < rounds; r++ {
+			// arrival pattern (drawn first: "draining" and "filling" also shape the departures)
+			pattern := rapid.SampledFrom([]string{"paced", "paced", "compressed", "draining", "draining", "filling", "stretched", "zero-interarrival", "equal", "decreasing", "huge-gaps", "all-lost", "half-lost", "random"}).Draw(t, "pattern")
 			groups := rapid.OneOf(rapid.IntRange(1, 6), rapid.IntRange(6, 16)).Draw(t, "groups")
+			// A sustained delay gradient is only seen by the detector when both departures and arrivals are more than the 5 ms
+			// burst time apart (closer arrivals with a negative variation are merged into one group) and it lasts for enough groups:
+			// one packet per group, departures ~14 ms apart, arrivals 6 ms (draining queue: underuse -> Hold) or 30 ms (filling queue: overuse -> Decrease) apart.
+			sustained := pattern == "draining" || pattern == "filling"
+			if sustained {
+				groups = rapid.IntRange(14, 34).Draw(t, "sustainedGroups")
+			}
 			type sentRec struct{ twcc uint16 }
 			var sent []sentRec
 			for g := 0; g < groups; g++ {
-				for k, n := 0, rapid.IntRange(1, 3).Draw(t, "burst"); k < n; k++ {
+				burst := 1
+				if !sustained {
+					burst = rapid.IntRange(1, 3).Draw(t, "burst")
+				}
+				for k := 0; k < burst; k++ {
 					hdr := rtp.Header{Version: 2, SSRC: 1, SequenceNumber: rtpSeq}
 					rtpSeq++
 					ext, _ := (rtp.TransportCCExtension{TransportSequence: twccSeq}).Marshal()
@@ -184,7 +200,9 @@ func TestTargetBitrateBounded(t *testing.T) {
 					sent = append(sent, sentRec{twcc: twccSeq})
 					twccSeq++
 				}
-				if rapid.IntRange(0, 3).Draw(t, "spaced") != 0 {
+				if sustained {
+					time.Sleep(14 * time.Millisecond)
+				} else if rapid.IntRange(0, 3).Draw(t, "spaced") != 0 {
 					time.Sleep(6 * time.Millisecond) // departures more than 5 ms apart start a new arrival group
 				}
 			}
@@ -193,8 +211,6 @@ func TestTargetBitrateBounded(t *testing.T) {
 					t.Skipf("inconclusive: leaky bucket pacer did not drain in 5 s")
 				}
 			}
-			// arrival pattern
-			pattern := rapid.SampledFrom([]string{"paced", "paced", "compressed", "compressed", "stretched", "zero-interarrival", "equal", "decreasing", "huge-gaps", "all-lost", "half-lost", "random"}).Draw(t, "pattern")
 			classes[pattern] = true
 			if pattern == "zero-interarrival" || pattern == "all-lost" {
 				interesting = true
@@ -209,6 +225,10 @@ func TestTargetBitrateBounded(t *testing.T) {
 					st.Delta250 = 8
 				case "stretched": // arrivals further apart than departures (overuse)
 					st.Delta250 = 60
+				case "draining":
+					st.Delta250 = 24
+				case "filling":
+					st.Delta250 = 120
 				case "zero-interarrival", "equal":
 					st.Delta250 = 0
 				case "decreasing":
